@@ -109,10 +109,13 @@ Print Assumptions c04_dst_fin_ack_ends.
 
 (* ------------------------------------------------------------------ receiver: NAK sequences awaiting missing data
    (re-issue on expiry k < N: c06_deferred_issue; nothing before expiry: c06_deferred_wait) *)
+(* expiry N: NAK Limit Reached is declared and, its handler not being IGNORE, the call ends there (after the F22 repair
+   the handler IGNORE lets the procedure continue: c14_dest_nak_limit_ignored_continues, props/C14.v) *)
 Theorem c04_dst_nak_limit : forall s r eos t,
   p_deferred (d_p s) = true -> p_rcfg (d_p s) = Some r -> p_file_size_eof (d_p s) = Some eos ->
   (p_tracker (d_p s) <> [] \/ p_md_missing (d_p s) = true) ->
   p_proc_timer (d_p s) = Some t -> timed_out (now_d s) t = true -> p_nak_counter (d_p s) + 1 = r_nak_limit r ->
+  get_fault_handler (l_faults (d_cfg s)) C_NAK_LIMIT <> Some FH_IGNORE ->
   deferred_lost_segment_handling s =
     (fst (declare_fault C_NAK_LIMIT s), match snd (declare_fault C_NAK_LIMIT s) with Ok _ => Ok tt | Err e => Err e end).
 Proof. exact dst_nak_limit. Qed.
